@@ -7,7 +7,7 @@ from lib import Result, model_call, run_sharded, e_fmt, e_list, e_dy, Reader, RM
 RULE = ('random programs of up to 12 public operations over a pool of objects with core-domain formats: construct (values, raw codes, dtype strings, like=), set / call / indexed assignment, resize, like(), + - * with every sizing policy and constants, / // %, '
         'unary minus / abs, shifts in the three modes, ~ & | ^, indexing, sum / cumsum / dot / max / transpose; after every step EVERY live object is checked: codes inside its own range, n_int = n_word - n_frac - sign bit, upper / lower / precision equal to '
         'max code*2^-n_frac / min code*2^-n_frac / 2^-n_frac (through scale and bias when set), dtype string spelling exactly (signed, n_word, n_frac). Saturation side: float inputs up to 1.7e308 and Python integers up to 2^1000 (both signs) into formats with n_frac>=0 '
-        'under saturate must store the bound on the input\'s own side (Spec op 4). Non-trivial = the program performs at least one overflowing or format-changing step; distinct by full program.')
+        'under saturate must store the bound on the input\'s own side (Spec op 4); float scalars, lists and arrays into words of 53..70 bits (the value upper + 1 LSB, multiples of it, the saturating element after an in-range one). Non-trivial = the program performs at least one overflowing or format-changing step; distinct by full program.')
 ASSUMPTIONS = ['well-formedness is evaluated on the implementation objects with exact rationals; the NumPy dispatch glue is exercised, not modelled']
 
 def wf(x, np):
@@ -128,6 +128,16 @@ def saturation(rng, n_cases, res):
         if isinstance(v, int) and rng.random() < 0.2:
             c['bias'] = rng.choice([1, -1, 8, -8, 1000]); c['scale'] = rng.choice([1, 1, 2])      # (a scaled object with integer scale and bias: the side is that of (v - bias)/scale)
         gen.append(c)
+    # words of 53..70 bits (formats with n_frac >= 0 beyond the core domain): a bound of more than 53 bits is not a float64, so the
+    # comparison with it and the clamp must not be done in floats; the saturating element alone, and after an in-range element
+    for _ in range(n_cases // 5):
+        nw = rng.choice([53, 54, 55, 56, 60, 62, 63, 64, 65, 70]); s = rng.random() < 0.6; nf = rng.choice([0, 0, 1, nw // 2, nw - 1, nw])
+        lo, hi = S.fmt_bounds(s, nw)
+        up = float(Fraction(hi + 1) / Fraction(2) ** nf)             # upper + 1 LSB: a power of two, the first value out of range
+        v = rng.choice([up, up, up * 2, up * 1.5, up * (1 + 2.0 ** -30), up * 2.0 ** 20, 1e300]) * (1 if not s else rng.choice([1, 1, -1]))
+        if v < 0: v = rng.choice([v * (1 + 2.0 ** -40), v * 2, v * 3, -1e300])      # (the lower bound itself, -up, is in range)
+        gen.append({'s': s, 'nw': nw, 'nf': nf, 'r': rng.choice(RMODES), 'v': v, 'route': rng.choice(['ctor', 'call', 'set_val']),
+                    'carrier': rng.choice(['float', 'list2', 'list2', 'arr2', 'list1'])})
     run_sat_cases(gen, res)
 
 def run_sat_cases(gen, res):
@@ -142,20 +152,32 @@ def run_sat_cases(gen, res):
         elif car == 'np.int64': v_in = np.int64(v)
         elif car == 'arr.int64': v_in = np.array([v], dtype=np.int64)
         elif car == 'fxp.getval': v_in = fx.Fxp(v, False, 64, 0)()
+        elif car == 'list2': v_in = [0.0, v]            # (an in-range element first: the array stays a float array)
+        elif car == 'arr2': v_in = np.array([0.0, v])
+        elif car == 'list1': v_in = [v]
         skw = {'scale': c['scale'], 'bias': c['bias']} if 'bias' in c else {}
         try:
             if c['route'] == 'ctor': x = fx.Fxp(v_in, s, nw, nf, rounding=c['r'], overflow='saturate', **skw)
             else:
                 x = fx.Fxp(None, s, nw, nf, rounding=c['r'], overflow='saturate', **skw); x.reset()
                 (x if c['route'] == 'call' else x.set_val)(v_in)
-            c['_got'] = (lib.codes_of(x)[0], lib.status3(x)[:2])
+            c['_got'] = (lib.codes_of(x)[-1], lib.status3(x)[:2])
         except Exception as e:
             res.fail({k: (repr(t) if isinstance(t, float) else t) for k, t in c.items()}, 'C02: storing an out-of-range value under saturate raised %s' % lib.exc_name(e), got=str(e)[:200]); continue
         t = (Fraction(v) - c['bias']) / c['scale'] if 'bias' in c else Fraction(v)
         if t.denominator & (t.denominator - 1): continue
         cases.append(c); reqs.append([4] + e_fmt(s, nw, nf) + [RMODES.index(c['r']), 0] + e_list([t], e_dy))
-    outs = model_call(reqs)
-    for c, out in zip(cases, outs):
+        # float inputs also go through the model of set_val (theorem C02_saturate_side_float_any_width speaks about it): the same array
+        c['_model'] = isinstance(v, float) and 'bias' not in c
+        if c['_model']:
+            fl = [0.0, v] if car in ('list2', 'arr2') else [v]
+            arr, vd = S.model_arr_enc('f', fl)
+            reqs.append([10] + e_fmt(s, nw, nf) + [RMODES.index(c['r']), 0, 0] + arr + [vd])
+    outs = model_call(reqs); oi = 0
+    for c in cases:
+        out = outs[oi]; oi += 1
+        mo = None
+        if c.pop('_model'): mo = S.read_model_store(outs[oi]); oi += 1
         rd = Reader(out); want = rd.lst(rd.z)[0]; so, su = rd.b(), rd.b()
         got, st = c.pop('_got')
         lo, hi = S.fmt_bounds(c['s'], c['nw'])
@@ -164,7 +186,10 @@ def run_sat_cases(gen, res):
         if got != want:
             res.fail(jc, 'C02: an out-of-range input under saturate is not stored as the bound on its own side', expected=want, got=got); continue
         if st != (so, su):
-            res.fail(jc, 'C02: overflow/underflow flag of a saturated store is on the wrong side', expected=(so, su), got=st)
+            res.fail(jc, 'C02: overflow/underflow flag of a saturated store is on the wrong side', expected=(so, su), got=st); continue
+        if mo is not None and (mo['kind'] != 'ok' or mo['codes'][-1] != got or mo['status'][:2] != st):
+            res.fail(jc, 'model Store.set_val_real disagrees with the implementation although the Spec agrees (float saturation)', expected=str(mo)[:200], got=(got, st))
+            res.failures[-1]['no_input'] = True
 
 def shard(shard, nshards, rng, tier, extra):
     res = Result()
